@@ -77,8 +77,17 @@ static int run_seq(int kind, const int* ops, int n) {
     else if (op == 9) { if (ml < 2) { ok = 0; break; } resize(x, (size_t)ml - 1); ml--; }
     else if (op == 10) { var y = copy(x); var z = kind == 0 ? (var)new_raw(Array, Int) : (var)new_raw(List, Int); assign(z, y); del(y); del_raw(x); x = z; }
     else if (op == 11) { int f = -1; for (int a = 0; a < ml; a++) if (m[a] == 1) { f = a; break; } if (f < 0) { ok = 0; break; } rem(x, $I(1)); memmove(m + f, m + f + 1, sizeof(int) * (size_t)(ml - f - 1)); ml--; }
+    else if (op == 13) { if (ml < 2 || ml >= 8) { ok = 0; break; } push_at(x, $I(1), $I(-2));
+      /* negative index conventions differ per kind (measured): Array counts from the end of the new sequence, List inserts before old element len-2 */
+      int at = kind == 0 ? ml - 1 : ml - 2; memmove(m + at + 1, m + at, sizeof(int) * (size_t)(ml - at)); m[at] = 1; ml++; }
+    else if (op == 14) { if (!ml) { ok = 0; break; } pop_at(x, $I(-1)); ml--; }
+    else if (op == 15) { if (!ml) { ok = 0; break; } set(x, $I(-1), $I(2)); m[ml - 1] = 2; }
     else if (op == 12) { if (ml < 1) { ok = 0; break; } var y = new_raw(List, Int, $I(0)); T_u((uint64_t)(cmp(x, y) > 0) + 2 * (uint64_t)(cmp(x, y) < 0)); T_u(eq(x, y)); del_raw(y); }
-    if (ok) observe_seq(x);
+    if (ok) {
+      observe_seq(x);
+      if (len(x) != (size_t)ml) { fprintf(stderr, "h_config: sequence model out of step (harness error)\n"); _exit(2); }
+      for (int q = 0; q < ml; q++) if (c_int(get(x, $I(q))) != m[q]) { T_mark("model-mismatch"); T_u((uint64_t)q); }
+    }
   }
   del_raw(x);
   return ok;
@@ -233,6 +242,7 @@ static void __attribute__((noinline)) churn(int n) {
   for (int i = 0; i < n; i++) { var g = new(Int, $I(i)); (void)g; }
 }
 
+static var gc_rootobj;               /* a root-registered object kept in static storage only */
 static int run_gcuse(const int* ops, int n) {
   volatile var slot = NULL;           /* a stack root */
   int have_tls = 0, serial = 0;
@@ -242,12 +252,16 @@ static int run_gcuse(const int* ops, int n) {
     case 1: { var s = new(String, $S("v")); print_to(s, 1, "%i", $I(serial++)); set(current(Thread), $S("cfgk"), s); have_tls = 1; break; }
     case 2: churn(300); break;
     case 3: if (have_tls) { rem(current(Thread), $S("cfgk")); have_tls = 0; } break;
+    case 5: if (!gc_rootobj) gc_rootobj = new_root(Int, $I(500 + serial++)); break;
+    case 6: if (gc_rootobj) { del_root(gc_rootobj); gc_rootobj = NULL; } break;
     case 4: { var v = new(Int, $I(7 + serial++)); var a = new(Array, Ref, v); slot = a; break; }   /* reachable only through a container */
     }
     T_mark("gcuse");
     if (slot) { if (type_of((var)slot) is Int) T_u((uint64_t)c_int((var)slot)); else { T_u((uint64_t)c_int(deref(get((var)slot, $I(0))))); } }
     if (have_tls) T_str(c_str(get(current(Thread), $S("cfgk"))));
+    if (gc_rootobj) T_u((uint64_t)c_int(gc_rootobj));
   }
+  if (gc_rootobj) { del_root(gc_rootobj); gc_rootobj = NULL; }
   if (have_tls) rem(current(Thread), $S("cfgk"));
   slot = NULL;
   return 1;
@@ -318,9 +332,9 @@ static uint64_t run_values(void) {
 
 struct domain { const char* name; int nops; int depth; int fixedlen; };
 static struct domain DOM[] = {
-  { "array", 13, 4, 0 }, { "list", 13, 4, 0 }, { "table", 14, 4, 0 }, { "tree", 14, 4, 0 }, { "string", 10, 4, 0 },
+  { "array", 16, 4, 0 }, { "list", 16, 4, 0 }, { "table", 14, 4, 0 }, { "tree", 14, 4, 0 }, { "string", 10, 4, 0 },
   { "exc", 3, 5, 1 }, { "view", 6, 4, 1 },
-  { "gcuse", 5, 4, 0 }, { "strarray", 8, 4, 0 }, { "strlist", 8, 4, 0 }, { "strtable", 8, 4, 0 },
+  { "gcuse", 7, 4, 0 }, { "strarray", 8, 4, 0 }, { "strlist", 8, 4, 0 }, { "strtable", 8, 4, 0 },
 };
 
 static int run_prog(int d, const int* ops, int n) {
